@@ -151,3 +151,139 @@ def _view(eng, st, obj, args, kwargs, node, site):
 	r = Ref('ndarray')
 	st.heap[r.addr] = nv
 	yield st, r
+
+
+# ---- array creation / whole-array functions used by the accumulators -------------------------------------
+
+def _kw(args, kwargs, pos, name, default=None):
+	if len(args) > pos:
+		return args[pos]
+	return kwargs.get(name, default)
+
+
+@lib('numpy.zeros')
+def _zeros(eng, st, args, kwargs, node):
+	n = args[0]
+	dt = as_dtype(_kw(args, kwargs, 1, 'dtype', DType('f', 8)))
+	if isinstance(n, tuple):
+		raise Unsupported('numpy.zeros with a shape tuple')
+	nt = int_term(n)
+	for s2, ok in eng.branch(st, nt >= 0):
+		if not ok:
+			yield s2, Raised('ValueError')
+			continue
+		r = Ref('ndarray')
+		s2.heap[r.addr] = SArr(z3.K(I, z3.IntVal(0)), nt, 0, dt.ctype, 'ndarray')
+		yield s2, r
+
+
+@lib('numpy.flatnonzero')
+def _flatnonzero(eng, st, args, kwargs, node):
+	"""indices of the non-zero entries, in increasing order (intp)"""
+	a = st.deref(args[0])
+	if not isinstance(a, SArr):
+		raise Unsupported(f'flatnonzero of {a!r}')
+	r = mk_ndarray(st, 'nz', DType('i', 8), ref=False)
+	m, n = r.length, a.length
+	p, q, j, i = z3.Int(fresh_name('p')), z3.Int(fresh_name('q')), z3.Int(fresh_name('j')), z3.Int(fresh_name('i'))
+	st.assume(z3.ForAll([p, q], z3.Implies(z3.And(0 <= p, p < q, q < m), r.at(p) < r.at(q))))
+	st.assume(z3.ForAll([j], z3.Implies(z3.And(0 <= j, j < m), z3.And(r.at(j) >= 0, r.at(j) < n, a.at(r.at(j)) != 0))))
+	st.assume(z3.ForAll([i], z3.Implies(z3.And(0 <= i, i < n, a.at(i) != 0), z3.Exists([j], z3.And(0 <= j, j < m, r.at(j) == i)))))
+	ref = Ref('ndarray')
+	st.heap[ref.addr] = r
+	yield st, ref
+
+
+@lib('method:astype')
+def _astype(eng, st, obj, args, kwargs, node, site):
+	"""element-wise C conversion to the target dtype (integers: value modulo 2^bits); a new array unless copy=False and the dtype already matches"""
+	a = st.deref(obj)
+	if not isinstance(a, SArr):
+		raise Unsupported(f'astype of {a!r}')
+	dt = as_dtype(args[0])
+	old = dtype_of(a)
+	if dt == old and kwargs.get('copy', True) is False:
+		yield st, obj
+		return
+	if dt.kind not in 'ui' or old.kind not in 'uib':
+		raise Unsupported(f'astype from {old} to {dt}')
+	ct = dt.ctype
+	r = mk_ndarray(st, 'astype', dt, length=a.length, ref=False)
+	j = z3.Int(fresh_name('j'))
+	bits = ct.bits
+	if ct.signed:
+		conv = lambda x: z3.If((x % (1 << bits)) >= (1 << (bits - 1)), (x % (1 << bits)) - (1 << bits), x % (1 << bits))
+	else:
+		conv = lambda x: x % (1 << bits)
+	st.assume(z3.ForAll([j], z3.Implies(z3.And(0 <= j, j < a.length), r.at(j) == conv(a.at(j)))))
+	ref = Ref('ndarray')
+	st.heap[ref.addr] = r
+	yield st, ref
+
+
+@lib('method:type')
+def _dtype_type(eng, st, obj, args, kwargs, node, site):
+	raise Unsupported('dtype.type as a method')
+
+
+def call_nptype(eng, st, dt, args, node):
+	"""numpy integer scalar constructor: the value if it fits the type, OverflowError otherwise (Python int argument)"""
+	v = args[0]
+	ct = dt.ctype
+	if ct.kind != 'int':
+		raise Unsupported(f'scalar constructor of {dt}')
+	t = int_term(v)
+	for s2, ok in eng.branch(st, z3.And(t >= ct.lo, t <= ct.hi)):
+		if ok:
+			r = SInt(t)
+			r.npint = True
+			yield s2, r
+		else:
+			yield s2, Raised('OverflowError')
+
+
+@lib('numpy.fromiter')
+def _fromiter(eng, st, args, kwargs, node):
+	"""array holding each element of the iterable once, in iteration order (for a set: some order)"""
+	src = st.deref(args[0])
+	dt = as_dtype(_kw(args, kwargs, 1, 'dtype'))
+	if isinstance(src, EmptySet):
+		r = Ref('ndarray')
+		st.heap[r.addr] = SArr(z3.K(I, z3.IntVal(0)), 0, 0, dt.ctype, 'ndarray')
+		yield st, r
+		return
+	if not isinstance(src, SSet):
+		raise Unsupported(f'fromiter of {src!r}')
+	r = mk_ndarray(st, 'fromiter', dt, ref=False, constrain=False)
+	m = r.length
+	p, q, j, x = z3.Int(fresh_name('p')), z3.Int(fresh_name('q')), z3.Int(fresh_name('j')), z3.Int(fresh_name('x'))
+	st.assume(z3.ForAll([p, q], z3.Implies(z3.And(0 <= p, p < q, q < m), r.at(p) != r.at(q))))
+	st.assume(z3.ForAll([j], z3.Implies(z3.And(0 <= j, j < m), src.has(r.at(j)))))
+	st.assume(z3.ForAll([x], z3.Implies(src.has(x), z3.Exists([j], z3.And(0 <= j, j < m, r.at(j) == x)))))
+	ref = Ref('ndarray')
+	st.heap[ref.addr] = r
+	yield st, ref
+
+
+@lib('method:sort')
+def _sort(eng, st, obj, args, kwargs, node, site):
+	"""ndarray.sort(): in place, non-decreasing, a permutation of the old contents (stated with the
+	permutation pi and its inverse as ghost functions)"""
+	a = st.deref(obj)
+	if not (isinstance(a, SArr) and isinstance(obj, Ref)):
+		raise Unsupported(f'sort of {a!r}')
+	m = a.length
+	r = SArr(z3.Const(fresh_name('sorted'), IntArr), m, 0, a.elem, a.kind)
+	pi = z3.Function(fresh_name('pi'), I, I)
+	inv = z3.Function(fresh_name('pinv'), I, I)
+	p, q, j = z3.Int(fresh_name('p')), z3.Int(fresh_name('q')), z3.Int(fresh_name('j'))
+	st.assume(z3.ForAll([p, q], z3.Implies(z3.And(0 <= p, p < q, q < m), r.at(p) <= r.at(q))))
+	st.assume(z3.ForAll([j], z3.Implies(z3.And(0 <= j, j < m), z3.And(0 <= pi(j), pi(j) < m, r.at(j) == a.at(pi(j)), inv(pi(j)) == j))))
+	st.assume(z3.ForAll([j], z3.Implies(z3.And(0 <= j, j < m), z3.And(0 <= inv(j), inv(j) < m, pi(inv(j)) == j, r.at(inv(j)) == a.at(j)))))
+	st.heap[obj.addr] = r
+	yield st, None
+
+
+@lib('call:nptype')
+def _call_nptype(eng, st, f, args, kwargs, node):
+	yield from call_nptype(eng, st, f.data['dt'], args, node)
